@@ -124,7 +124,7 @@ def parse_classes(text, fname, classes, outer=None):
                 if ids:
                     bases.append(ids[-1] if "<" not in b else ids[0])
         qual = name if outer is None else outer + "::" + name
-        cl = classes.setdefault(name, {"name": name, "qual": qual, "file": fname, "bases": [], "members": [], "nested": [], "outer": outer, "methods": {}})
+        cl = classes.setdefault(name, {"name": name, "qual": qual, "file": fname, "bases": [], "members": [], "nested": [], "outer": outer, "methods": {}, "static_methods": set()})
         cl["bases"] = sorted(set(cl["bases"]) | set(bases))
         # members: statements at depth 0 of the body
         stmts = []
@@ -143,6 +143,8 @@ def parse_classes(text, fname, classes, outer=None):
                     tail = head[head.rfind(")") + 1:] if ")" in head else ""
                     isc = bool(re.match(r"\s*const\b", re.sub(r":[^:].*$", "", tail, flags=re.S))) or bool(re.search(r"\)\s*const\b", head))
                     cl["methods"].setdefault(nmh, set()).add(isc)
+                    if re.search(r"\bstatic\b", head[:head.find("(")] if "(" in head else head):
+                        cl["static_methods"].add(nmh)
                 # drop the block (inline function body / nested class / enum / initializer)
                 cur = [] if not re.search(r"=\s*$", head) else cur
                 i = j
@@ -167,6 +169,8 @@ def parse_classes(text, fname, classes, outer=None):
                 mm = re.search(r"(~?[A-Za-z_]\w*)\s*\((?:[^()]|\([^()]*\))*\)\s*(const\b)?\s*(?:throw\s*\([^)]*\))?\s*(?:=\s*0)?\s*$", s)
                 if mm:
                     cl["methods"].setdefault(mm.group(1), set()).add(bool(mm.group(2)))
+                    if re.match(r"^\s*static\b", s):
+                        cl["static_methods"].add(mm.group(1))
             if not s or SKIP_STMT.match(s) or "(" in s or "operator" in s:
                 continue
             s = re.sub(r"\[[^\]]*\]", "", s)          # array bounds
@@ -554,6 +558,104 @@ def main():
                     ws.add(fn)
             entries.append({"kind": "globalVar", "scope": rel, "name": m.group(2), "funcs": sorted(ws), "where": "%s:%d" % (rel, t.count("\n", 0, m.start()) + 1)})
 
+    # 5. process-wide state touched on the way from the per-thread API: call graph from every NON-STATIC member function of
+    #    XalanTransformer (what a thread may call on its own transformer: constructor, transform, compileStylesheet,
+    #    parseSource, install/uninstallExternalFunction, destroy*, ...) through XalanTransformer and the two environment-support
+    #    classes that own the process-wide function tables.  Every (reachable function, process-wide variable it mentions) pair
+    #    is an entry; the static members (initialize, terminate, install/uninstallExternalFunctionGlobal, ICUCleanUp) are the
+    #    documented single-threaded phase and are not roots.
+    CG = ["XalanTransformer", "XSLTProcessorEnvSupportDefault", "XPathEnvSupportDefault"]
+    for c in CG:
+        if c not in classes:
+            print("c07_share: class %s not found (call graph of the per-thread API)" % c)
+            return 1
+    bodies = {}          # "Cls::name" -> list of body texts
+    for c in CG:
+        h = os.path.join(SRC, classes[c]["file"])
+        for f in (h, re.sub(r"\.hpp$", ".cpp", h)):
+            t = texts.get(f)
+            if t is None:
+                continue
+            for name, a0, b0 in spans[f]:
+                segs = name.split("::")
+                if len(segs) >= 2 and segs[-2] == c:
+                    bodies.setdefault(c + "::" + segs[-1], []).append(t[a0:b0])
+
+    def has_method(cls, name, seen=None):
+        seen = seen or set()
+        if cls in seen or cls not in classes:
+            return None
+        seen.add(cls)
+        if name in classes[cls]["methods"] and (cls + "::" + name) in bodies:
+            return cls
+        for b in classes[cls]["bases"]:
+            r0 = has_method(b, name, seen)
+            if r0:
+                return r0
+        return cls if name in classes[cls]["methods"] else None
+
+    def callees(owner, body):
+        res = set()
+        local = {}
+        for m in re.finditer(r"\b([A-Z]\w*)\s*[&*]?\s+(\w+)\s*(?:\(|;|=)", body):
+            if m.group(1) in CG:
+                local[m.group(2)] = m.group(1)
+                if "&" not in m.group(0) and "*" not in m.group(0):     # an object: its constructor and destructor run here
+                    res.add(m.group(1) + "::" + m.group(1))
+                    res.add(m.group(1) + "::~" + m.group(1))
+        members = {mem["name"]: [x for x in IDENT.findall(mem["type"]) if x in CG] for mem in classes[owner]["members"]}
+        for mem in classes[owner]["members"]:
+            for x in members.get(mem["name"], []):
+                if "*" not in mem["type"] and "&" not in mem["type"] and not mem["static"]:
+                    res.add(x + "::" + x)
+                    res.add(x + "::~" + x)
+        for m in re.finditer(r"\b([A-Za-z_]\w*)\s*::\s*(~?[A-Za-z_]\w*)\s*\(", body):
+            if m.group(1) in CG:
+                res.add(m.group(1) + "::" + m.group(2))
+        for m in re.finditer(r"\b(\w+)\s*(?:\.|->)\s*([A-Za-z_]\w*)\s*\(", body):
+            obj, meth = m.group(1), m.group(2)
+            cls = local.get(obj) or (members.get(obj) or [None])[0]
+            if cls:
+                res.add(cls + "::" + meth)
+        for m in re.finditer(r"(?<![\w.>:])([A-Za-z_]\w*)\s*\(", body):
+            if m.group(1) in classes[owner]["methods"]:
+                res.add(owner + "::" + m.group(1))
+        return res
+
+    roots = [k for k in bodies if k.startswith("XalanTransformer::") and k.split("::")[1] not in classes["XalanTransformer"]["static_methods"]]
+    if "XalanTransformer::doTransform" not in roots or "XalanTransformer::initialize" in roots:
+        print("c07_share: call graph roots wrong (doTransform must be a root, the static initialize must not): %s" % sorted(roots)[:8])
+        return 1
+    reachable_fn, cgwork = set(), list(roots)
+    edges = {}
+    while cgwork:
+        fn = cgwork.pop()
+        if fn in reachable_fn or fn not in bodies:
+            continue
+        reachable_fn.add(fn)
+        owner = fn.split("::")[0]
+        cs = set()
+        for b0 in bodies[fn]:
+            cs |= callees(owner, b0)
+        edges[fn] = sorted(x for x in cs if x in bodies and x != fn)
+        cgwork += edges[fn]
+    if "XSLTProcessorEnvSupportDefault::installExternalFunctionLocal" not in reachable_fn or \
+            "XSLTProcessorEnvSupportDefault::~XSLTProcessorEnvSupportDefault" not in reachable_fn:
+        print("c07_share: call graph broken: doTransform -> XSLTProcessorEnvSupportDefault::installExternalFunctionLocal / "
+              "the destructor of its local XSLTProcessorEnvSupportDefault not found")
+        return 1
+    gvars = [(e["scope"], e["name"]) for e in entries if e["kind"] == "globalVar"]
+    for fn in sorted(reachable_fn):
+        txt = "\n".join(bodies[fn])
+        for sc, nm in gvars:
+            if re.search(r"\b%s\b" % re.escape(nm), txt):
+                # a file-scope static is only visible in its own file
+                if "/" in sc and os.path.basename(sc).split(".")[0] != fn.split("::")[0]:
+                    continue
+                entries.append({"kind": "transformTouch", "scope": "%s::%s" % (sc, nm), "name": fn, "funcs": [fn],
+                                "where": "call graph of the per-thread XalanTransformer API"})
+    callgraph = {"roots": sorted(roots), "reachable": sorted(reachable_fn), "edges": edges}
+
     # sanity: constructs that must be found, or the parser no longer understands the source
     need = [("constPathCall", "XercesDocumentWrapper", "getPooledString|m_stringPool->get"),
             ("mutableMember", "XercesDocumentWrapper", "m_nodeMap"), ("mutableMember", "XercesLiaisonXalanDOMStringPool", "m_mutex")]
@@ -588,7 +690,7 @@ def main():
     # the hand-kept classification (translate/c07_allow.tsv) with its keys as numerals
     GUARDS = {"perExecution", "constructionOnly", "wrapperPrebuilt", "pooledStringMutex", "isMutex", "initTerminate",
               "installOnly", "neverWritten", "castNoWrite", "ownerOnly", "lazyListHead", "headForced", "noConstLookup",
-              "emptyChecked", "listConstNoAlloc", "noConstCaller"}
+              "emptyChecked", "listConstNoAlloc", "noConstCaller", "readOnlyUse"}
     allow_rows, aliases = [], []
     for ln, line in enumerate(open(os.path.join(HERE, "c07_allow.tsv"), encoding="utf-8"), 1):
         line = line.rstrip("\n")
@@ -620,7 +722,7 @@ def main():
             h.write(new)
     with open(os.path.join(common.GEN, "C07_Share.json"), "w") as h:
         json.dump({"reachable": {c: why.get(c, "") for c in rl}, "class_files": {c: classes[c]["file"] for c in rl},
-                   "strict": sorted(strict), "entries": entries}, h, indent=1)
+                   "strict": sorted(strict), "callgraph": callgraph, "entries": entries}, h, indent=1)
     kinds = {}
     for e in entries:
         kinds[e["kind"]] = kinds.get(e["kind"], 0) + 1
